@@ -100,6 +100,10 @@ def deviations2_for(code):
             yield {'A': a, 'F': f}
 
 
+def ddcb_slot(code):
+    return code[0] in (0xDD, 0xFD) and code[1] == 0xCB
+
+
 def is_16bit_arith(code):
     if code[0] == 0xED:
         return code[1] & 0xC7 in (0x42, 0x4A)
@@ -301,6 +305,28 @@ def _shard(shard, nshards, tier, seed):
                         stats.counters['arith16'] += 1
                         if diffs:
                             _report(stats, 'arith16', code, 0x8000, 0, over, (), 0xBF, res, diffs, 2 * 10**9 + si)
+        # (ii-b) operand sweep: every value 0..255 of every operand byte (displacement, immediate, jump offset,
+        #        address byte) of this slot, from both base states
+        ref0 = z80ref.decode(list(code0) + [0] * 4, 0)
+        if ref0.length >= 2 and ref0.undoc not in ('prefix', 'ednop') and not (ref0.length == 2 and code0[0] in (0xCB, 0xED)):
+            first = 2 if code0[0] in (0xED, 0xDD, 0xFD) else 1
+            for pos in range(first, ref0.length):
+                if ddcb_slot(code0) and pos == 3:
+                    continue
+                for v in range(256):
+                    c = list(code0[:4])
+                    if not (code0[0] in (0xCB, 0xED, 0xDD, 0xFD)):
+                        c = [code0[0], 0x12, 0x90, 0x56]
+                    elif not ddcb_slot(code0):
+                        c = [code0[0], code0[1], 0x12, 0x90]
+                    c[pos] = v
+                    for base in (0, 1):
+                        exp, res, diffs = rn.run(tuple(c), 0x8000, base, {}, (), 0xBF)
+                        stats.evaluations += 1
+                        stats.transitions += 4
+                        stats.counters['operand_sweep'] += 1
+                        if diffs:
+                            _report(stats, 'operand', tuple(c), 0x8000, base, {}, (), 0xBF, res, diffs, 4 * 10**9 + si * 1000 + v)
         # (iii) PC wrap points
         code = code0 if code0[0] in (0xCB, 0xED, 0xDD, 0xFD) else (code0[0], 0x12, 0x80, 0x56)
         for addr in (0x0000, 0x3FFD, 0x3FFE, 0x3FFF, 0x4000, 0xFFFD, 0xFFFE, 0xFFFF):
@@ -326,7 +352,7 @@ def run(tier, seed):
         rule='(i) complete ALU/rotate/BIT/INC/DEC/DAA/NEG/CPL/SCF/CCF/RLD/RRD tables over all (A, operand, carry/F) tuples, plus the same '
              'tables through n/(HL)/(IX+d)/IYh operand forms; (ii) every opcode slot x {} operand fillings x 2 base states x one-at-a-time '
              'deviations (6 register pairs x 14 boundary values, A, F, I, R, T x IFF, IM; port answers 00/7F/80/FF) and the 14x14x2 grid for '
-             '16-bit arithmetic; (iii) every slot at 8 PC wrap points x 6 SP values. Each case = one instruction on all 4 simulators vs '
+             '16-bit arithmetic, and all 256 values of every operand byte of every slot from both base states; (iii) every slot at 8 PC wrap points x 6 SP values. Each case = one instruction on all 4 simulators vs '
              'z80ref.step (all registers, masked F, PC, T, ports, whole memory). states = distinct (op class, length, T, PC, stores, ports) '
              'outcomes + sampled table results; non-trivial = distinct slots/table slices'.format(3 if tier == 'quick' else 5),
         exhaustive=True,
@@ -335,7 +361,7 @@ def run(tier, seed):
                      'while a block instruction repeats; H/PV/C/F3/F5 while INIR/OTIR-type instructions repeat',
                      'contended simulators started outside the contended part of the frame (C19 covers contention)',
                      'HALT and the LD A,I/R interrupt-window rule are modelled as SkoolKit documents them (INT active for 32 T-states)'],
-        required_guards=['table_AB', 'table_AF', 'table_AM', 'arith16', 'pc_wrap', 'stores', 'taken_True', 'taken_False',
+        required_guards=['operand_sweep', 'table_AB', 'table_AF', 'table_AM', 'arith16', 'pc_wrap', 'stores', 'taken_True', 'taken_False',
                          'op_block', 'op_bit', 'op_rot', 'op_in_r_c', 'op_halt', 'op_ld_a_ir', 'op_prefix', 'op_ednop'],
     )
     return stats, meta
